@@ -647,3 +647,41 @@ pub open spec fn hc_frame(config: Config, reporter: Option<ReporterLog>, o: Glob
 // derived Default of ActiveCollector: empty vector, empty map (Rust's derive; assumed)
 pub assume_specification [<ActiveCollector as Default>::default] () -> (r: ActiveCollector)
     ensures r.span_collections@ =~= Seq::<SpanCollection>::empty(), r.danglings@ =~= Map::<SpanId, Vec<DanglingItem>>::empty();
+
+// ---- drain_one (the closure given to retain_mut): commands by kind, order kept
+pub open spec fn starts_of(cmds: Seq<CollectCommand>) -> Seq<StartCollect>
+    decreases cmds.len(),
+{
+    if cmds.len() == 0 { Seq::empty() } else {
+        match cmds.last() { CollectCommand::StartCollect(c) => starts_of(cmds.drop_last()).push(c), _ => starts_of(cmds.drop_last()) }
+    }
+}
+
+pub open spec fn drops_of(cmds: Seq<CollectCommand>) -> Seq<DropCollect>
+    decreases cmds.len(),
+{
+    if cmds.len() == 0 { Seq::empty() } else {
+        match cmds.last() { CollectCommand::DropCollect(c) => drops_of(cmds.drop_last()).push(c), _ => drops_of(cmds.drop_last()) }
+    }
+}
+
+pub open spec fn commits_of(cmds: Seq<CollectCommand>) -> Seq<CommitCollect>
+    decreases cmds.len(),
+{
+    if cmds.len() == 0 { Seq::empty() } else {
+        match cmds.last() { CollectCommand::CommitCollect(c) => commits_of(cmds.drop_last()).push(c), _ => commits_of(cmds.drop_last()) }
+    }
+}
+
+pub open spec fn submits_of(cmds: Seq<CollectCommand>) -> Seq<SubmitSpans>
+    decreases cmds.len(),
+{
+    if cmds.len() == 0 { Seq::empty() } else {
+        match cmds.last() { CollectCommand::SubmitSpans(c) => submits_of(cmds.drop_last()).push(c), _ => submits_of(cmds.drop_last()) }
+    }
+}
+
+// what was received in this call
+pub open spec fn received(o: Receiver<CollectCommand>, n: Receiver<CollectCommand>) -> Seq<CollectCommand> {
+    n.popped().skip(o.popped().len() as int)
+}
